@@ -68,7 +68,7 @@ def dump_oracle(cfg, views, inp):
 def run(ctx):
     ok = ctx.prove(["PhreeqcVerif.Properties.Route"])
     ctx.build_lib()
-    exe = ctx.build_harness("ph_trace")
+    exe = tracelib.build_trace_harness(ctx)
     ninputs = ctx.n(6, 24)
     allbits = list(itertools.product([False, True], repeat=10))
     nconf = ctx.n(64, 512)
@@ -138,6 +138,9 @@ def run(ctx):
         th = tracelib.run_histories(ctx, exe, ctx.n(20, 400) if ok else 250, with_cells=False)
         evals += th["evaluations"]
         distinct |= {("h", k) for k in range(th["distinct"])}
+    if not ctx.violations:
+        # instances without a database under every combination of the out/log/err string and file switches
+        evals += tracelib.run_nodb_matrix(ctx, exe, ctx.n(16, 64) if ok else 64)
     ctx.cov["evaluations"] = evals
     ctx.cov["distinct_nontrivial"] = len(distinct)
     ctx.cov["traces_validated_against_impl"] = evals
@@ -227,7 +230,7 @@ def replay(ctx, data):
         return tracelib.replay_history(ctx, data)
     if data.get("kind") == "paired":
         # two fresh instances, same input repeated position+1 times; only the last call's configuration differs
-        exe = ctx.build_harness("ph_trace")
+        exe = tracelib.build_trace_harness(ctx)
         ctx.prove(["PhreeqcVerif.Properties.Route"])
         ref, cfg, pos = tracelib.cfg_from_json(data["cfg_ref"]), tracelib.cfg_from_json(data["cfg"]), int(data.get("position", 0))
         a = tracelib.run_calls(ctx, exe, [(ref, data["input"])] * (pos + 1))
@@ -244,6 +247,6 @@ def replay(ctx, data):
 
 MANIFEST = dict(
     technique='Lean 4 theorems on the message-routing model within a call and across calls (file = string, disabled sink untouched, getline lines, error file contains error string, dump stream state machine); event-trace and multi-call history correspondence over switch configurations',
-    text="Theorems (Properties/Route.lean) hold for every event trace, switch state and history of calls: msgs_file_eq_string, punch_file_eq_string, history_sel_file_eq_string, call_msg_streams (file re-created only when its switch is on, untouched otherwise), history_sel_file_untouched / _unopened, call_views_forget, run_views_last, call_lines_spec, lineAt_spec, errfile_contains_errstring, dump_both_on_identical (every history of simulations with DUMP / DUMP -append / no DUMP while both dump switches stay on), dump_disabled_nothing, dump_append_semantics, dump_one_shot; witnesses for what the code does not guarantee (reopen_after_text_differs, heading_before_open_differs, dump_print_off_differs). Tie: every call's recorded PHRQ_io event stream replayed through the model, all views (strings, line accessors incl. out-of-range, files read back from disk) compared, over sampled (quick) or all (thorough) switch combinations with switch changes between consecutive calls; histories of calls with DIFFERENT inputs judged by the history model with files compared whatever the switch says; dump_info state and the number of dumps held by file and string after every call compared with the dump model; paired runs compare value tables across configurations.",
+    text="Theorems (Properties/Route.lean) hold for every event trace, switch state and history of calls: msgs_file_eq_string, punch_file_eq_string, history_sel_file_eq_string, call_msg_streams (file re-created only when its switch is on, untouched otherwise), history_sel_file_untouched / _unopened, call_views_forget, run_views_last, call_lines_spec, lineAt_spec, errfile_contains_errstring, dump_both_on_identical (every history of simulations with DUMP / DUMP -append / no DUMP while both dump switches stay on), dump_disabled_nothing, dump_append_semantics, dump_one_shot; witnesses for what the code does not guarantee (reopen_after_text_differs, heading_before_open_differs, dump_print_off_differs). Tie: every call's recorded PHRQ_io event stream replayed through the model, all views (strings, line accessors incl. out-of-range, files read back from disk) compared, over sampled (quick) or all (thorough) switch combinations with switch changes between consecutive calls; histories of calls with DIFFERENT inputs judged by the history model with files compared whatever the switch says; dump_info state and the number of dumps held by file and string after every call compared with the dump model; paired runs compare value tables across configurations; instances WITHOUT a database (never loaded, after a failed LoadDatabase of a missing file, after a failed LoadDatabaseString; before and after successful calls) under every combination of the out/log/err string and file switches, judged by Inst.callNoDb / Inst.loadFail (theorems callNoDb_streams, callNoDb_lines_refreshed, loadFail_spec, loadFail_lines_refreshed; witnesses for the code without the re-split).",
     note="Trusted: as C05. The dump text itself never passes PHRQ_io: the model carries one opaque token per simulation, the tie compares dump_info (on / selection / append), the number of dumps in each sink, unchanged-ness and file = string. PRINT -dump false is not generated (the string sink ignores it: witness theorem, reported). 'Switches never change computed results' is exploration (paired runs), not a theorem.",
 )
